@@ -144,6 +144,20 @@ func runTokens(rp *explore.Report, tier string) {
 			try(c, v)
 		}
 	}
+	// fragments of every type condition at every kind of position, selecting fields the enclosing type has, fields only
+	// the named type has, unknown fields, and selections of the wrong shape - inline and as named spreads
+	conds := []string{"User", "Item", "Thing", "Query", "Nope"}
+	positions := []string{"{ users { id %s } }", "{ items { %s } }", "{ things { %s } }", "{ %s count }", "{ user(id: 1) { friend { %s } } }"}
+	bodies := []string{"name", "age", "tags", "owner { id }", "items { id }", "count", "nosuch", "age { x }", "items", "__typename", "friend { nosuch }"}
+	for _, cond := range conds {
+		for _, pos := range positions {
+			for _, body := range bodies {
+				try(fmt.Sprintf(pos, "... on "+cond+" { "+body+" }"), nil)
+				try(fmt.Sprintf(pos, "...F")+" fragment F on "+cond+" { "+body+" }", nil)
+				try(fmt.Sprintf(pos, "...F ...G")+" fragment F on "+cond+" { "+body+" } fragment G on User { id }", nil)
+			}
+		}
+	}
 	// all token sequences up to maxLen, bare and wrapped so that the interesting ones get past the lexer
 	var rec func(prefix []string)
 	rec = func(prefix []string) {
@@ -366,7 +380,7 @@ func init() {
 		Item: func(name string) *explore.Item { return fedItem(strings.TrimPrefix(name, "federation ")) },
 		Rule: "part (d), federation: a three-service gateway request in which one sibling sub-query fails (the error group cancels the others), and a gateway request cancelled by a thread, under every schedule within the deviation bound (gateway construction runs on the default schedule); oracle: the request returns and no thread stays blocked"})
 	reg.Register(&reg.Harness{Property: "C15", Name: "c15/tokens", Level: "model_checking", Run: runTokens,
-		Rule: "sequential part (a): every sequence of <=4 (thorough 5) tokens over a 28-token GraphQL alphabet, bare and in two wrappers, plus 51 hand-written constructs (inline fragments without type condition, subscriptions, directive misuse, duplicate args/variables, fragment cycles, numeric overflow, conflicting aliases, wrong fragments under unions, ...) x 13 JSON variable maps, through Parse -> PrepareQuery -> Execute; oracle: an error or a result, never a panic. non-trivial = inputs that pass the parser"})
+		Rule: "sequential part (a): every sequence of <=4 (thorough 5) tokens over a 28-token GraphQL alphabet, bare and in two wrappers, plus fragments of 5 type conditions (matching, foreign, union, root, unknown) x 5 positions x 11 bodies (fields of the enclosing type / of the named type only / unknown / wrong shape) inline and as named spreads, plus 51 hand-written constructs (inline fragments without type condition, subscriptions, directive misuse, duplicate args/variables, fragment cycles, numeric overflow, conflicting aliases, wrong fragments under unions, ...) x 13 JSON variable maps, through Parse -> PrepareQuery -> Execute; oracle: an error or a result, never a panic. non-trivial = inputs that pass the parser"})
 	reg.Register(&reg.Harness{Property: "C15", Name: "c15/growth", Level: "model_checking", Run: runGrowth,
 		Rule: "sequential part (b): six input families (fragment-spread bombs, repeated aliases, deep nesting, wide and nested inline fragments) at depth d and 2d; the number of function entries executed inside package graphql (counted by instrumentation, no wall clock) may grow at most cubically with the input size"})
 	reg.Register(&reg.Harness{Property: "C15", Name: "c15/cancel-http", Level: "model_checking", Bounds: [2]int{2, 3}, Run: runCancel,
